@@ -3,9 +3,11 @@ import RpycModel.Conc.Serve.Basic
 import RpycModel.Conc.Serve.Locks
 import RpycModel.Conc.Serve.Frames
 import RpycModel.Conc.Serve.Seqs
+import RpycModel.Conc.Serve.Stalls
 /-
 L8 `Serve`: the receive side of a connection shared by several threads.
 `Model` = the machine (DESIGN.md Appendix C.1), `Basic` = projections and the invariant statements,
-`Locks` / `Frames` / `Seqs`(+`SeqsAux`) = the proofs that every reachable state satisfies them.
+`Locks` / `Frames` / `Seqs`(+`SeqsAux`) = the proofs that every reachable state satisfies them,
+`Stalls` = lemmas behind the C14 classification / release / single-thread theorems.
 Property theorems: `Props/C13.lean`, `Props/C14.lean`.
 -/
